@@ -66,10 +66,17 @@ pub struct ChunkRead<'a> {
     pub data: &'a [u8],
     pub pos: usize,
     pub chunk: usize,
+    /// every n-th call (n > 0) answers `Interrupted` and delivers nothing
+    pub interrupt_every: usize,
+    pub calls: usize,
 }
 
 impl<'a> Read for ChunkRead<'a> {
     fn read(&mut self, buf: &mut [u8]) -> std::io::Result<usize> {
+        self.calls += 1;
+        if self.interrupt_every > 0 && self.calls % self.interrupt_every == 0 {
+            return Err(std::io::Error::new(std::io::ErrorKind::Interrupted, "interrupted"));
+        }
         let n = buf.len().min(self.chunk.max(1)).min(self.data.len() - self.pos);
         buf[..n].copy_from_slice(&self.data[self.pos..self.pos + n]);
         self.pos += n;
@@ -104,13 +111,15 @@ pub struct CountRead {
     /// the transient condition `std::io::Read` callers are expected to retry
     pub interrupt_every: usize,
     pub calls: usize,
+    /// once `delivered` reaches this many bytes, one read call fails with a transient error (see `Dec::stall`)
+    pub stall_at: Option<(usize, u8)>,
 }
 
 impl CountRead {
     pub fn new(bytes: &[u8]) -> (CountRead, std::rc::Rc<std::cell::RefCell<Vec<u8>>>, std::rc::Rc<std::cell::RefCell<usize>>) {
         let data = std::rc::Rc::new(std::cell::RefCell::new(bytes.to_vec()));
         let delivered = std::rc::Rc::new(std::cell::RefCell::new(0usize));
-        (CountRead { data: data.clone(), delivered: delivered.clone(), chunk: usize::MAX, interrupt_every: 0, calls: 0 }, data, delivered)
+        (CountRead { data: data.clone(), delivered: delivered.clone(), chunk: usize::MAX, interrupt_every: 0, calls: 0, stall_at: None }, data, delivered)
     }
     pub fn with_chunk(mut self, chunk: usize) -> CountRead {
         self.chunk = chunk.max(1);
@@ -118,6 +127,10 @@ impl CountRead {
     }
     pub fn with_interrupts(mut self, every: usize) -> CountRead {
         self.interrupt_every = every;
+        self
+    }
+    pub fn with_stall(mut self, at: Option<(usize, u8)>) -> CountRead {
+        self.stall_at = at;
         self
     }
 }
@@ -130,7 +143,20 @@ impl Read for CountRead {
         }
         let d = self.data.borrow();
         let mut pos = self.delivered.borrow_mut();
-        let n = buf.len().min(d.len() - *pos).min(self.chunk);
+        let mut limit = usize::MAX;
+        if let Some((at, kind)) = self.stall_at {
+            if *pos >= at {
+                self.stall_at = None;
+                let k = match kind {
+                    0 => std::io::ErrorKind::WouldBlock,
+                    1 => std::io::ErrorKind::TimedOut,
+                    _ => std::io::ErrorKind::Other,
+                };
+                return Err(std::io::Error::new(k, "transient source error"));
+            }
+            limit = at - *pos;
+        }
+        let n = buf.len().min(d.len() - *pos).min(self.chunk).min(limit);
         buf[..n].copy_from_slice(&d[*pos..*pos + n]);
         *pos += n;
         Ok(n)
@@ -148,22 +174,112 @@ pub struct Dec {
     /// Bytes the source hands out per read call when a picture is decoded from its own reader
     /// (`usize::MAX`: a plain slice).
     pub chunk: usize,
+    /// Transient source error: `Some((permille, kind))` makes the source of every picture answer one
+    /// read call - the first one at or behind `len * permille / 1000` bytes - with an I/O error of that
+    /// kind (0 = WouldBlock, 1 = TimedOut, 2 = Other) and then carry on. The failed decode call is
+    /// repeated on the same reader: a failed call changes nothing, so the outcome must be what it
+    /// would have been without the hiccup.
+    pub stall: Option<(usize, u8)>,
+    /// number of decode calls that were repeated after a transient source error
+    pub stalls_retried: usize,
+    /// every n-th read call of a picture's own source answers `Interrupted` (n > 0; needs `chunk` set)
+    pub interrupt_every: usize,
+    /// Late delivery: `Some(n)` (1..=6) hands the reader only the first n bytes of every picture - never a
+    /// complete picture header, so the call must fail for lack of data - then appends the rest to the same
+    /// source and repeats the call, as the decoder's documentation allows.
+    pub trickle: Option<usize>,
+    pub trickles_retried: usize,
+}
+
+/// A byte source that delivers at most `chunk` bytes per read call and fails once with a transient error.
+pub struct StallRead<'a> {
+    data: &'a [u8],
+    pos: usize,
+    chunk: usize,
+    stall_at: usize,
+    kind: u8,
+    fired: std::rc::Rc<std::cell::Cell<bool>>,
+}
+
+impl Read for StallRead<'_> {
+    fn read(&mut self, buf: &mut [u8]) -> std::io::Result<usize> {
+        if !self.fired.get() && self.pos >= self.stall_at {
+            self.fired.set(true);
+            let k = match self.kind {
+                0 => std::io::ErrorKind::WouldBlock,
+                1 => std::io::ErrorKind::TimedOut,
+                _ => std::io::ErrorKind::Other,
+            };
+            return Err(std::io::Error::new(k, "transient source error"));
+        }
+        let mut n = buf.len().min(self.chunk.max(1)).min(self.data.len() - self.pos);
+        if !self.fired.get() {
+            n = n.min(self.stall_at - self.pos);
+        }
+        buf[..n].copy_from_slice(&self.data[self.pos..self.pos + n]);
+        self.pos += n;
+        Ok(n)
+    }
 }
 
 impl Dec {
     pub fn new(sorenson: bool, scal: bool) -> Dec {
-        Dec { st: H263State::new(options(sorenson, scal)), chunk: usize::MAX }
+        Dec { st: H263State::new(options(sorenson, scal)), chunk: usize::MAX, stall: None, stalls_retried: 0, interrupt_every: 0, trickle: None, trickles_retried: 0 }
     }
     /// Decode one picture supplied in its own reader.
     pub fn decode(&mut self, bytes: &[u8]) -> Outcome {
+        if let Some(n) = self.trickle {
+            if bytes.len() > n {
+                let (src, data, _) = CountRead::new(&bytes[..n]);
+                let src = src.with_chunk(if self.chunk == usize::MAX { 1 << 20 } else { self.chunk });
+                let st = &mut self.st;
+                let mut retried = 0;
+                let out = outcome_of(catch(|| {
+                    let mut rd = H263Reader::from_source(src);
+                    let first = st.decode_next_picture(&mut rd);
+                    match &first {
+                        Err(Error::UnhandledIoError(e)) if e.kind() == std::io::ErrorKind::UnexpectedEof => {
+                            data.borrow_mut().extend_from_slice(&bytes[n..]);
+                            retried = 1;
+                            st.decode_next_picture(&mut rd)
+                        }
+                        _ => first,
+                    }
+                }));
+                self.trickles_retried += retried;
+                return out;
+            }
+        }
+        if let Some((permille, kind)) = self.stall {
+            let fired = std::rc::Rc::new(std::cell::Cell::new(false));
+            let stall_at = (bytes.len() * permille.min(1000) / 1000).min(bytes.len().saturating_sub(1));
+            let src = StallRead { data: bytes, pos: 0, chunk: if self.chunk == usize::MAX { 1 << 20 } else { self.chunk }, stall_at, kind, fired: fired.clone() };
+            let st = &mut self.st;
+            let mut retried = 0;
+            let out = outcome_of(catch(|| {
+                let mut rd = H263Reader::from_source(src);
+                let first = st.decode_next_picture(&mut rd);
+                match &first {
+                    Err(Error::UnhandledIoError(e)) if fired.get() && e.kind() != std::io::ErrorKind::UnexpectedEof => {
+                        // the hiccup surfaced as an error: nothing may have changed, so the call is simply repeated
+                        retried = 1;
+                        st.decode_next_picture(&mut rd)
+                    }
+                    _ => first,
+                }
+            }));
+            self.stalls_retried += retried;
+            return out;
+        }
         let st = &mut self.st;
         let chunk = self.chunk;
+        let interrupt_every = self.interrupt_every;
         outcome_of(catch(|| {
             if chunk == usize::MAX {
                 let mut rd = H263Reader::from_source(bytes);
                 st.decode_next_picture(&mut rd)
             } else {
-                let mut rd = H263Reader::from_source(ChunkRead { data: bytes, pos: 0, chunk });
+                let mut rd = H263Reader::from_source(ChunkRead { data: bytes, pos: 0, chunk, interrupt_every, calls: 0 });
                 st.decode_next_picture(&mut rd)
             }
         }))
